@@ -1,7 +1,8 @@
 (* Tie B for C14: compare the model of Percolate with what the implementation did.
-   A case is a history of runs of ONE dynamics object on one prototype network; every run is compared with
-   the model on the ORIGINAL edge list (setUp makes a fresh working copy of the prototype, so runs are
-   independent in the model). *)
+   A case is a history of runs of ONE dynamics object; every run carries the edge list of the prototype network
+   in force in that run (the same one again, or another one installed with setNetworkGenerator between the runs)
+   and is compared with the model on THAT edge list (setUp makes a fresh working copy of the prototype, so runs
+   are independent in the model). *)
 From Coq Require Import List ZArith QArith Bool Arith.
 From EpyV Require Import Lib.Prelude Model.Percolate.
 Import ListNotations.
